@@ -1495,9 +1495,13 @@ def _fork_index(self):
   st = ForkState.active
   if st is None or st.get('index_domain') is None:
     return _orig_index(self)
+  memo = st.setdefault('memo', {})
+  if id(self) in memo:          # the same traced value is concretised consistently
+    return memo[id(self)][1]
   k = len(st['decisions'])
   d = int(st['script'][k]) if k < len(st['script']) else int(st['index_domain'][0])
   st['decisions'].append((self, ('i', d)))
+  memo[id(self)] = (self, d)
   return d
 
 
